@@ -52,6 +52,42 @@ def q(s):
     return '"%s"' % s
 
 
+# Functions that move object representations (type punning through memcpy or a byte pointer): the IR has no
+# notion of it, so they are replaced by a hand-written IR equivalent (REAL = IEEE bit pattern; little-endian
+# target for encoder_append_long_uint) - only while their C text is exactly the one the equivalent was written for.
+OVERRIDES = {
+    'encoder_append_long_uint': (
+        'static void encoder_append_long_uint(struct encoder_t* p0, uint64_t p1, uint8_t p2) { const uint8_t* l0 = '
+        '((const uint8_t*)(&p1)); uint8_t l1[8]; for (uint32_t l2 = 0; (l2 < p2); l2++) { l1[((p2 - l2) - 1)] = (*l0++); } '
+        'encoder_append_bytes(p0, l1, p2); }',
+        'mkFunc [("self_p", PByRef); ("value", PByVal U64); ("number_of_bytes", PByVal U8)] '
+        '[("buf", (VArr (repeat (VInt 0) 8))); ("byte", VUndef)] '
+        '[(SFor [SAssign (PVar "byte") U32 (EConst (0))] (EBin OLt U32 (ERead (PVar "byte")) (ERead (PVar "number_of_bytes"))) '
+        '[SAssign (PVar "byte") U32 (EBin OAdd U32 (ERead (PVar "byte")) (EConst (1)))] '
+        '[SAssign (PIndex (PVar "buf") (EBin OSub U32 (EBin OSub U32 (ERead (PVar "number_of_bytes")) (ERead (PVar "byte"))) (EConst (1)))) U8 '
+        '(ECast U8 (EBin OShr U64 (ERead (PVar "value")) (EBin OMul U32 (EConst (8)) (ERead (PVar "byte")))))]); '
+        '(SExpr (ECall "encoder_append_bytes" [(ARef (PVar "self_p")); (ARef (PVar "buf")); (AVal U64 (ERead (PVar "number_of_bytes")))]))] None'),
+    'encoder_append_float': (
+        'static void encoder_append_float(struct encoder_t* p0, float p1) { uint32_t l0; ((void)memcpy((&l0), (&p1), sizeof(l0))); '
+        'encoder_append_uint32(p0, l0); }',
+        'mkFunc [("self_p", PByRef); ("value", PByVal U32)] [] '
+        '[(SExpr (ECall "encoder_append_uint32" [(ARef (PVar "self_p")); (AVal U32 (ERead (PVar "value")))]))] None'),
+    'encoder_append_double': (
+        'static void encoder_append_double(struct encoder_t* p0, double p1) { uint64_t l0; ((void)memcpy((&l0), (&p1), sizeof(l0))); '
+        'encoder_append_uint64(p0, l0); }',
+        'mkFunc [("self_p", PByRef); ("value", PByVal U64)] [] '
+        '[(SExpr (ECall "encoder_append_uint64" [(ARef (PVar "self_p")); (AVal U64 (ERead (PVar "value")))]))] None'),
+    'decoder_read_float': (
+        'static float decoder_read_float(struct decoder_t* p0) { float l0; uint32_t l1; l1 = decoder_read_uint32(p0); '
+        '((void)memcpy((&l0), (&l1), sizeof(l0))); return l0; }',
+        'mkFunc [("self_p", PByRef)] [] [(SReturn (Some (ECall "decoder_read_uint32" [(ARef (PVar "self_p"))])))] (Some U32)'),
+    'decoder_read_double': (
+        'static double decoder_read_double(struct decoder_t* p0) { double l0; uint64_t l1; l1 = decoder_read_uint64(p0); '
+        '((void)memcpy((&l0), (&l1), sizeof(l0))); return l0; }',
+        'mkFunc [("self_p", PByRef)] [] [(SReturn (Some (ECall "decoder_read_uint64" [(ARef (PVar "self_p"))])))] (Some U64)'),
+}
+
+
 class T(object):
     """Types: ('int', ity) | ('ptr', T) | ('arr', T, n) | ('struct', members-dict-ordered) | ('void',)"""
 
@@ -90,6 +126,10 @@ class Translator(object):
             if base[7:] not in self.structs:
                 raise CParseError('unknown struct %s' % base)
             t = ('struct', [(m.name, self.ty(m.ctype, m.array)) for m in self.structs[base[7:]]])
+        elif base == 'float':
+            t = ('int', 'U32')          # REAL binary32 travels as its bit pattern (see OVERRIDES)
+        elif base == 'double':
+            t = ('int', 'U64')
         elif base == 'void':
             t = ('void',)
         else:
@@ -363,7 +403,7 @@ class Translator(object):
                 e = e[2]
                 if e[0] == 'id':
                     return []                       # (void)param;
-                if not (e[0] == 'call' and e[1] == 'memcpy'):
+                if e[0] != 'call':
                     raise CParseError('(void) of %s' % cparse.show(e))
             if e[0] == 'assign':
                 return [self.assign(e[2], e[1], e[3], env)]
@@ -378,6 +418,18 @@ class Translator(object):
                     raise CParseError('memcpy of a scalar')
                 n, _ = self.rvalue(e[2][2], env)
                 return ['(SMemcpy %s %s %s %s %s)' % (pd, od, ps, os_, n)]
+            if e[0] == 'call' and e[1] == 'memset':
+                if len(e[2]) != 3 or e[2][1] != ('num', 0, ''):
+                    raise CParseError('memset other than memset(p, 0, n)')
+                pd, od, _, sd, idx = self.pointer(e[2][0], env)
+                if sd or idx != ('num', 0, ''):
+                    raise CParseError('memset of a scalar / with an offset')
+                n, tn = self.rvalue(e[2][2], env)
+                iv = self.fresh_local(env, 'memset_i', ('int', 'U64'))
+                return ['(SFor [SAssign (PVar %s) U64 (EConst (0))] (EBin OLt U64 (ERead (PVar %s)) %s) '
+                        '[SAssign (PVar %s) U64 (EBin OAdd U64 (ERead (PVar %s)) (EConst (1)))] '
+                        '[SAssign (PIndex %s (ERead (PVar %s))) U8 (EConst (0))])' % (
+                            q(iv), q(iv), self.cast(n, tn, 'U64'), q(iv), q(iv), pd, q(iv))]
             if e[0] == 'call':
                 text, _ = self.call(e, env)
                 return ['(SExpr %s)' % text]
@@ -390,6 +442,26 @@ class Translator(object):
             c, _ = self.rvalue(s[2], env)
             step = self.stmt(('expr', s[3]), env)
             return ['(SFor [%s] %s [%s] %s)' % ('; '.join(init), c, '; '.join(step), self.block(s[4], env))]
+        if k == 'empty':
+            return []
+        if k == 'dowhile':
+            # do body while (c)  ==  body; while (c) body
+            c, _ = self.rvalue(s[2], env)
+            body = self.block(s[1], env)
+            return ['(SFor %s %s [] %s)' % (body, c, body)]
+        if k == 'fordecl':
+            _, ct, lname, arr, init, static_const = s[1]
+            if arr is not None or init is None:
+                raise CParseError('for-declaration of %s' % lname)
+            t = self.ty(ct)
+            if lname in env:
+                raise CParseError('%s declared twice' % lname)
+            env[lname] = t
+            self.extra_locals.append('(%s, VUndef)' % q(lname))
+            initst = self.assign(('id', lname), '=', init, env)
+            c, _ = self.rvalue(s[2], env)
+            step = self.stmt(('expr', s[3]), env)
+            return ['(SFor [%s] %s [%s] %s)' % (initst, c, '; '.join(step), self.block(s[4], env))]
         if k == 'switch':
             e, _ = self.rvalue(s[1], env)
             arms = []
@@ -429,8 +501,23 @@ class Translator(object):
             return self.stmts(s[1], env)
         raise CParseError('statement %r' % (k,))
 
+    def fresh_local(self, env, base, t):
+        name = '$' + base
+        if name not in env:
+            env[name] = t
+            self.extra_locals.append('(%s, VUndef)' % q(name))
+        return name
+
     def function(self, name):
         f = self.functions[name]
+        if name in OVERRIDES:
+            want, ir = OVERRIDES[name]
+            got = ' '.join(cparse.show_function(cparse.alpha_function(f)).split())
+            if got != want:
+                raise CParseError('%s (type punning, translated by a hand-written IR equivalent) no longer has the '
+                                  'text that equivalent was written for: %s' % (name, got))
+            return '(%s, %s)' % (q(name), ir)
+        self.extra_locals = []
         env = {}
         params = []
         for pct, pname in f.params:
@@ -466,8 +553,9 @@ class Translator(object):
             locals_.append('(%s, %s)' % (q(lname), v))
         rt = self.ty(f.ret)
         ret = 'None' if rt[0] == 'void' else '(Some %s)' % rt[1]
-        return '(%s, mkFunc [%s] [%s] %s %s)' % (q(name), '; '.join(params), '; '.join(locals_),
-                                                self.block(body, env), ret)
+        btext = self.block(body, env)
+        return '(%s, mkFunc [%s] [%s] %s %s)' % (q(name), '; '.join(params), '; '.join(locals_ + self.extra_locals),
+                                                btext, ret)
 
     def program(self, names=None):
         names = names or self.order
